@@ -177,6 +177,7 @@ type pipeFeed struct {
 	e       *env
 	items   []int
 	fatalAt int
+	fatalE  error
 	snd     *stream.PipeSender[int]
 	done    chan struct{}
 }
@@ -197,9 +198,9 @@ func (f *pipeFeed) run() {
 	}
 	f.e.pert.Do()
 	if f.fatalAt >= 0 {
-		f.e.noteInjected(errSrcFatal, true)
+		f.e.noteInjected(f.fatalE, true)
 		f.e.ev('p', 'e')
-		f.snd.Close(errSrcFatal)
+		f.snd.Close(f.fatalE)
 	} else {
 		f.e.ev('p', 'N')
 		f.snd.Close(nil)
@@ -214,6 +215,7 @@ type concAttempt struct {
 	evs     []int
 	err     error
 	ctxDone bool
+	fired   bool // the fatal fault had fired when the call returned
 	start   int64
 	end     int64
 	handed  int64
@@ -226,6 +228,7 @@ type concRun struct {
 	fs    []fault
 
 	e        *env
+	fatalE   error // error value of the planned fatal fault (nil: none)
 	attempts []concAttempt
 	redVals  []int
 	redErr   error
@@ -297,13 +300,16 @@ func (cr *concRun) exec(rnd *vkit.Rand) (verdict vkit.AwaitVerdict, dump string)
 		all := refConcat(cr.parts)
 		feed = &pipeFeed{e: e, items: copyInts(all), fatalAt: -1, done: make(chan struct{})}
 		e.srcs = append(e.srcs, &srcInfo{name: "pipe-sender", nItems: len(all),
-			setFatal: func(p int) { feed.fatalAt = p }, setTransient: func(int) {}})
+			setFatal: func(p int, E error) { feed.fatalAt, feed.fatalE = p, E }, setTransient: func(int) {}})
 	} else {
 		for j := range cr.parts {
 			srcs = append(srcs, newSrc(e, fmt.Sprintf("src%d", j), copyInts(cr.parts[j]), true, nil))
 		}
 	}
-	plan, _ := e.apply(cr.fs)
+	plan, fatal := e.apply(cr.fs)
+	if fatal != nil {
+		cr.fatalE = fatalErrOf(fatal)
+	}
 	if spec.usesPipe {
 		snd, rcv := stream.Pipe[int](cr.prm.Buf)
 		feed.snd = snd
@@ -387,16 +393,21 @@ loop:
 		evs, err := stp.step(ctx)
 		end := e.clock.Tick()
 		ctxDone := ctx.Err() != nil
+		fired := e.fatalFired.Load()
 		if cancel != nil {
 			cancel()
 		}
-		cr.attempts = append(cr.attempts, concAttempt{plan: pk, evs: evs, err: err, ctxDone: ctxDone, start: start, end: end, handed: e.handed.Load()})
+		cr.attempts = append(cr.attempts, concAttempt{plan: pk, evs: evs, err: err, ctxDone: ctxDone, fired: fired, start: start, end: end, handed: e.handed.Load()})
 		switch {
 		case err == nil:
 			e.ev('A', 'i')
 			continue
 		case err == stream.End:
 			e.ev('A', 'N')
+		case cr.mayBeFatalReport(fired, err):
+			// (also when the call's own context had expired and E carries the same value: it may be
+			// the report of E, and what comes after the first report is not judged)
+			e.ev('A', 'F')
 		case ctxDone && errors.Is(err, context.DeadlineExceeded):
 			e.ev('A', 'x')
 			continue
@@ -411,6 +422,11 @@ loop:
 		<-feed.done
 	}
 	cr.phase.Store(3)
+}
+
+// mayBeFatalReport: the fatal fault has fired and err carries its value.
+func (cr *concRun) mayBeFatalReport(fired bool, err error) bool {
+	return fired && cr.fatalE != nil && errors.Is(err, cr.fatalE)
 }
 
 func (cr *concRun) attemptLog() []string {
@@ -475,10 +491,7 @@ func (cr *concRun) judge() (o concOutcome) {
 	}
 	fatalErr := error(nil)
 	if fatal != nil {
-		fatalErr = errSrcFatal
-		if fatal.Kind == fkFatalCb {
-			fatalErr = errCbFatal
-		}
+		fatalErr = fatalErrOf(fatal)
 	}
 	fired := e.fatalFired.Load()
 
@@ -533,7 +546,7 @@ func (cr *concRun) judge() (o concOutcome) {
 				o.buffered = true
 			}
 		}
-		if a.ctxDone && errors.Is(a.err, context.DeadlineExceeded) {
+		if a.ctxDone && errors.Is(a.err, context.DeadlineExceeded) && !cr.mayBeFatalReport(a.fired, a.err) {
 			o.transient++
 			continue
 		}
@@ -684,6 +697,54 @@ func concFaults(spec *concSpec, n int, nparts int, partLens []int, prmBSmin int)
 	return out
 }
 
+// fewPositions: first, middle and at-end (deduplicated) of [0, limit] (or of [0, limit) when the
+// position must name an item).
+func fewPositions(limit int, inclusive bool) []int {
+	hi := limit
+	if !inclusive {
+		hi = limit - 1
+	}
+	if hi < 0 {
+		return nil
+	}
+	out := []int{0}
+	for _, p := range []int{hi / 2, hi} {
+		if p != out[len(out)-1] {
+			out = append(out, p)
+		}
+	}
+	return out
+}
+
+// concErrValueFaults: the fatal faults with the non-sentinel error values, at a few positions of
+// every source and every callback stage.
+func concErrValueFaults(spec *concSpec, n int, nparts int, partLens []int) []fault {
+	var out []fault
+	for ek := 1; ek < nFatalErrKinds; ek++ {
+		if spec.usesPipe {
+			for _, p := range fewPositions(n, true) {
+				out = append(out, mkFatal(fkFatalSrc, 0, p, ek))
+			}
+		} else {
+			for j := 0; j < nparts; j++ {
+				for _, p := range fewPositions(partLens[j], true) {
+					out = append(out, mkFatal(fkFatalSrc, j, p, ek))
+				}
+			}
+		}
+		for _, k := range spec.cbStages {
+			lim := n
+			if spec.cbPart0 {
+				lim = partLens[0]
+			}
+			for _, p := range fewPositions(lim, false) {
+				out = append(out, mkFatal(fkFatalCb, k, p, ek))
+			}
+		}
+	}
+	return out
+}
+
 // concParts cuts the input for the subject deterministically from (n, nparts).
 func concParts(in []int, nparts int, rnd *vkit.Rand) [][]int {
 	if nparts <= 1 {
@@ -713,6 +774,7 @@ func concurrent(r *vkit.Report) {
 	type prepared struct {
 		cfg   concCfg
 		parts [][]int
+		half  bool // error-value scenarios: the value, not the timing, is the point - half the repetitions
 	}
 	var cfgs []prepared
 	for si, spec := range subs {
@@ -729,9 +791,20 @@ func concurrent(r *vkit.Report) {
 				lens[j] = len(parts[j])
 			}
 			singles := concFaults(spec, n, np, lens, 1)
-			cfgs = append(cfgs, prepared{concCfg{si, n, nil}, parts})
+			cfgs = append(cfgs, prepared{cfg: concCfg{si, n, nil}, parts: parts})
 			for _, f := range singles {
-				cfgs = append(cfgs, prepared{concCfg{si, n, []fault{f}}, parts})
+				cfgs = append(cfgs, prepared{cfg: concCfg{si, n, []fault{f}}, parts: parts})
+			}
+			extras := concErrValueFaults(spec, n, np, lens)
+			for _, f := range extras {
+				cfgs = append(cfgs, prepared{cfg: concCfg{si, n, []fault{f}}, parts: parts, half: true})
+			}
+			// in sequences of faults, a quarter of the fatal ones carry one of the other error values
+			vary := func(f fault) fault {
+				if f.Kind.fatal() && rnd.Intn(4) == 0 {
+					return mkFatal(f.Kind, f.Target, f.Pos, 1+rnd.Intn(nFatalErrKinds-1))
+				}
+				return f
 			}
 			ok := func(fs ...fault) bool {
 				nf := 0
@@ -752,15 +825,15 @@ func concurrent(r *vkit.Report) {
 				continue
 			}
 			for t := 0; t < pairsPer; t++ {
-				a, b := singles[rnd.Intn(len(singles))], singles[rnd.Intn(len(singles))]
+				a, b := vary(singles[rnd.Intn(len(singles))]), vary(singles[rnd.Intn(len(singles))])
 				if ok(a, b) {
-					cfgs = append(cfgs, prepared{concCfg{si, n, []fault{a, b}}, parts})
+					cfgs = append(cfgs, prepared{cfg: concCfg{si, n, []fault{a, b}}, parts: parts})
 				}
 			}
 			for t := 0; t < triplesPer; t++ {
-				a, b, d := singles[rnd.Intn(len(singles))], singles[rnd.Intn(len(singles))], singles[rnd.Intn(len(singles))]
+				a, b, d := vary(singles[rnd.Intn(len(singles))]), vary(singles[rnd.Intn(len(singles))]), vary(singles[rnd.Intn(len(singles))])
 				if ok(a, b, d) {
-					cfgs = append(cfgs, prepared{concCfg{si, n, []fault{a, b, d}}, parts})
+					cfgs = append(cfgs, prepared{cfg: concCfg{si, n, []fault{a, b, d}}, parts: parts})
 				}
 			}
 		}
@@ -771,9 +844,9 @@ func concurrent(r *vkit.Report) {
 			return stream.Merge[int](), nil
 		}}
 	subs = append(subs, mergeZero)
-	cfgs = append(cfgs, prepared{concCfg{len(subs) - 1, 0, nil}, nil})
-	cfgs = append(cfgs, prepared{concCfg{len(subs) - 1, 0, []fault{mkFault(fkCtxDead, 0, 0)}}, nil})
-	cfgs = append(cfgs, prepared{concCfg{len(subs) - 1, 0, []fault{mkFault(fkCtxExpiring, 0, 0), mkFault(fkCtxDead, 0, 1)}}, nil})
+	cfgs = append(cfgs, prepared{cfg: concCfg{len(subs) - 1, 0, nil}})
+	cfgs = append(cfgs, prepared{cfg: concCfg{len(subs) - 1, 0, []fault{mkFault(fkCtxDead, 0, 0)}}})
+	cfgs = append(cfgs, prepared{cfg: concCfg{len(subs) - 1, 0, []fault{mkFault(fkCtxExpiring, 0, 0), mkFault(fkCtxDead, 0, 1)}}})
 
 	workers := 8
 	r.Cases("conc", len(cfgs), workers, func(c *vkit.Case) {
@@ -788,7 +861,11 @@ func concurrent(r *vkit.Report) {
 		if kk == "" {
 			kk = "none"
 		}
-		for rep := 0; rep < reps; rep++ {
+		nreps := reps
+		if pc.half {
+			nreps = reps / 2
+		}
+		for rep := 0; rep < nreps; rep++ {
 			if stuckSeen.Load() >= 3 {
 				return
 			}
@@ -889,7 +966,10 @@ func concurrent(r *vkit.Report) {
 							pcl = "middle"
 						}
 					}
-					r.Distinct(fmt.Sprintf("%s|%s|%s|buffered=%v", spec.name, f.KindS, pcl, o.buffered))
+					r.Distinct(fmt.Sprintf("%s|%s|%s|buffered=%v", spec.name, f.kindKey(), pcl, o.buffered))
+					if f.Kind.fatal() {
+						r.Count("fatal faults that fired, by error value", fatalErrNames[f.Err], 1)
+					}
 				}
 				if o.buffered {
 					r.Count("observations", "faults that hit while items were held inside the pipeline", 1)
